@@ -126,6 +126,32 @@ class Ctx:
     def bump(self, k, n=1):
         self.stats[k] = self.stats.get(k, 0) + n
 
+    def decoy(self, proto):
+        """What another protocol of the same model leaves behind in a process: (inputs, runs) that relay a small stream of
+        that protocol binary -> NDJSON and NDJSON -> binary before the run under test, in the same harness process - so that
+        writers and readers of a different protocol have been built and used there already.  None if the model has no other
+        protocol (or its small stream cannot be made)."""
+        if not hasattr(self, "_decoys"):
+            self._decoys = {}
+        if proto.name not in self._decoys:
+            res = None
+            try:
+                others = [p for p in self.model.protocols() if p.name != proto.name and p.name in self.cm.copyto]
+                if others:
+                    o = others[len(proto.name) % len(others)]
+                    dr = M.derive(1234, "decoy", o.name)
+                    ovals = sw.gen_values(self.env, self.ns, o, dr, finite=True, items=(1, 2))
+                    osch = self.model.schema(o)
+                    ob = self.codec.encode_stream(o, self.ns, osch, ovals)
+                    oj = self.codec.encode_ndjson(o, self.ns, osch, ovals).encode("utf-8")
+                    nb = self.cm.copyto[o.name]
+                    res = ([ob, oj], [{"proto": o.name, "op": "relay", "in_fmt": "binary", "out_fmt": "ndjson", "input": 1, "batch": [1] * nb},
+                                      {"proto": o.name, "op": "relay", "in_fmt": "ndjson", "out_fmt": "binary", "input": 2, "batch": [1] * nb}])
+            except Exception:  # noqa  (no decoy then)
+                res = None
+            self._decoys[proto.name] = res
+        return self._decoys[proto.name]
+
     def violation(self, rec, proto, vals, parts, pipeline, detail, extra=None):
         d = {"kind": "roundtrip", "prop": self.prop, "pkg": sw.pack_pkg(self.model.pkg), "files": M.render_tree(self.model.pkg, ""), "protocol": proto.name,
              "values": sw.pack(vals), "partitions": sw.pack(parts), "pipeline": pipeline, "detail": detail[:700], "seed": self.task["seed"],
@@ -217,7 +243,15 @@ def run_pipeline(cx: Ctx, proto, vals, parts, pipeline: str, rng=None, cpp_batch
             nb = cx.cm.copyto[proto.name]
             run = {"proto": proto.name, "op": "relay", "in_fmt": fin, "out_fmt": fout, "input": 0, "batch": cpp_batch or [1] * nb,
                    "chunk_mode": {"whole": 0, "bytewise": 1, "small": 2, "mixed": 3}[chunk_mode], "chunk_seed": 7}
-            res = cx.cm.run_plan([bytes(raw)], [run], timeout=120)[0]
+            dec = cx.decoy(proto) if (rng is not None and rng.fork("decoy", hop).chance(0.5)) else None
+            if dec is not None:
+                # process history: another protocol's writers and readers were at work in this process before
+                cx.bump("cpp_hops_after_another_protocol_in_the_same_process")
+                res = cx.cm.run_plan([bytes(raw)] + dec[0], dec[1] + [run], timeout=120)[-1]
+            else:
+                res = cx.cm.run_plan([bytes(raw)], [run], timeout=120)[0]
+            if res is None:
+                return "%s: no result" % hop
             if res.get("crashed"):
                 return "%s crashed: %s" % (hop, res.get("stderr", "")[-300:])
             if not res["ok"]:
